@@ -91,7 +91,8 @@ def check(case, viol):
                  for sp, w in zip(specs, wrap)]
     try:
         res = S.run(run_specs, shape, case['seed'], boxes=boxes_in, bbox_format=fmt,
-                    bbox_kw=dict(thr, check_each_transform=case['each']), more_boxes=bool(case.get('more_boxes')))
+                    bbox_kw=dict(thr, check_each_transform=case['each']), more_boxes=bool(case.get('more_boxes')),
+                    rebuilt=bool(case.get('rebuilt')))
     except Exception as e:  # noqa
         viol.append({'site': 'C04:raises:%s' % '+'.join(s['cls'] for s in specs), 'case': case,
                      'observed': '%s: %s' % (type(e).__name__, e), 'expected': 'boxes clipped or dropped, no exception'})
@@ -271,6 +272,21 @@ def gen_forced(rng, choice, each):
             'thresholds': thr, 'each': each, 'seed': R.pick_seed(rng)}
 
 
+def gen_visibility_split(rng, which, fmt):
+    """a box cut along z only: its planar (xy) visibility stays 1 while its volume visibility drops to 0.4, so exactly
+    one of the two visibility thresholds (set to 0.5, the other left at 0) removes it -- the two thresholds are
+    distinguishable, also after the pipeline has been through its serialised form; power-of-two frame: exact"""
+    H, W, D = rng.sample([8, 16, 32], 3)
+    cut = (1.0, 2.0, D / 4.0, W - 1.0, H - 2.0, D * 7 / 8.0, 'cut')
+    whole = (0.0, 1.0, 0.0, W / 2.0, H / 2.0, D / 4.0, 'whole')
+    thr = {'min_planar_area': 0.0, 'min_volume': 0.0, 'min_area_visibility': 0.0, 'min_volume_visibility': 0.0,
+           'min_width': 0.0, 'min_height': 0.0, 'min_depth': 0.0}
+    thr['min_volume_visibility' if which == 'vvis' else 'min_area_visibility'] = 0.5
+    specs = [S.L('Crop', x_min=0, y_min=0, z_min=0, x_max=W, y_max=H, z_max=D // 2)]
+    return {'shape': [H, W, D], 'bboxes': [cut, whole], 'pipeline': specs, 'format': fmt, 'thresholds': thr,
+            'each': rng.random() < 0.5, 'seed': R.pick_seed(rng)}
+
+
 def run(seed=0, tier='quick', hints=None, broken=False):
     rng = random.Random(seed * 7919 + 4)
     n = 120 if tier == 'quick' else 4000
@@ -284,7 +300,15 @@ def run(seed=0, tier='quick', hints=None, broken=False):
     for ch, e in idle:
         case = gen_case(rng, force_choice=ch, force_each=e, empty=True)
         check(case, viol)
+        check(dict(case, rebuilt=True), viol)
         seen.add(('idle', ch, e))
+    for rep in range(1 if tier == 'quick' else 10):
+        for which in ('vvis', 'avis'):
+            for fmt in FORMATS:
+                case = gen_visibility_split(rng, which, fmt)
+                check(case, viol)
+                check(dict(case, rebuilt=True), viol)
+                seen.add(('visibility-split', which, fmt))
     for i in range(n + len(forced) + len(wrapped)):
         if i < n:
             case = gen_case(rng, empty=rng.random() < 0.05)
@@ -294,6 +318,10 @@ def run(seed=0, tier='quick', hints=None, broken=False):
             k, ch = wrapped[i - n - len(forced)]
             case = gen_case(rng, force_choice=ch, force_each=True, force_wrap=k)
         check(case, viol)
+        if i >= n or i % 4 == 0:
+            # the same case through the pipeline rebuilt from its own serialised form (every purpose-built case, a
+            # quarter of the random ones): a threshold that does not survive the round trip filters differently
+            check(dict(case, rebuilt=True), viol)
         seen.add((tuple(case['shape']), case['format'], case['each'], tuple(sorted(case['thresholds'].items())),
                   tuple(s['cls'] for s in case['pipeline'])))
     return {'violations': viol, 'info': {'evaluations': n, 'distinct': len(seen),
